@@ -186,7 +186,7 @@ static void cross_check(void)
 
 struct case_budget chk_budget(const char *tier)
 {
-        struct case_budget b = { 0, strcmp(tier, "thorough") == 0 ? 400000 : 20000 };
+        struct case_budget b = { 0, strcmp(tier, "thorough") == 0 ? 2000000 : 60000 };
         return b;
 }
 void chk_run_case(uint64_t seed, long c, bool is_sweep)
